@@ -86,6 +86,32 @@ def run_ground(res, repo, task, findings):
     return out
 
 
+def run_bounded(res, repo, spec, seed, tier):
+    env = dict(os.environ)
+    env.pop('PYTHONPATH', None)
+    env['PYTHONWARNINGS'] = 'ignore'
+    p = subprocess.run([D.VENV_PY, os.path.join(D.VERIF, 'pyvc', 'bounded_native.py'), repo, D.VERIF, spec, str(seed), tier],
+                       capture_output=True, text=True, timeout=3000, env=env)
+    try:
+        out = json.loads(p.stdout.strip().split('\n')[-1])
+    except Exception:
+        res.crashes.append('bounded stand-in %s failed: %s' % (spec, (p.stdout + p.stderr)[-600:]))
+        return
+    res.bounded.append({'what': 'bounded stand-in (native evaluation of an assumed contract)', 'function': out.get('function'),
+                        'tool': 'native run-time contract check under /venv/bin/python', 'bound': out.get('bound'),
+                        'evaluations': out.get('evaluations'), 'failures': out.get('failures')})
+    if out.get('failures'):
+        rdir = os.environ.get('PYVC_REPLAY_DIR') or 'replay'
+        path = os.path.join(rdir, res.pid, 'bounded-%s.json' % spec.split(':')[-1])
+        full = path if os.path.isabs(path) else os.path.join(D.VERIF, path)
+        os.makedirs(os.path.dirname(full), exist_ok=True)
+        json.dump({'property': res.pid, 'obligation': 'bounded:%s' % out.get('function'), 'failures': out['failures'],
+                   'how': '/venv/bin/python pyvc/bounded_native.py %s %s %s %s %s' % (repo, D.VERIF, spec, seed, tier)}, open(full, 'w'), indent=1)
+        res.violations.append({'obligation': 'bounded:%s' % out.get('function'), 'replay': path, 'confirmed': True,
+                               'detail': 'assumed contract fails natively: %s' % json.dumps(out['failures'][0])[:300],
+                               'witness': out['failures'][0]})
+
+
 def main(argv):
     ap = argparse.ArgumentParser()
     ap.add_argument('prop')
@@ -135,6 +161,8 @@ def main(argv):
             res.extra['cpython_crosscheck'] = cc
         if P.get('rxdiff'):
             run_rxdiff(res, a.repo, P['rxdiff'], 7 if a.tier == 'quick' else 9)
+        for spec in P.get('bounded', []):
+            run_bounded(res, a.repo, spec, seed, a.tier)
         for task in P.get('ground', []):
             run_ground(res, a.repo, task, findings)
         for hook in P.get('extra', []):
